@@ -18,7 +18,7 @@ RULE = (
     'species, cell, parameters).'
 )
 RULE += ' Added in rounds 5-10: in-place edits (temperature, time step, extend) re-queried through Trajectory.metrics(); 1/T law on a second live trajectory; cell scale over six decades; hydrogen isotopes; lists of different runs (other cell / temperature / a one-frame run) for the Std variants; arbitrary time steps.'
-RULE += ' Round 12: ion charges also negative, zero (conductivity exactly 0) and fractional. Round 13: a series of further charges from {-2,-1,1,2,3} is queried on the same metrics object.'
+RULE += ' Round 12: ion charges also negative, zero (conductivity exactly 0) and fractional. Round 14: runs handed over as displacements whose first stored frame is already displaced from the reference positions (amplitude sum). Round 13: a series of further charges from {-2,-1,1,2,3} is queried on the same metrics object.'
 ASSUMPTIONS = [
     'CODATA 2018 exact constants (k_B, e, N_A); atomic masses from pymatgen Element data',
     'relative tolerance 1e-9; total time = n_frames x time_step',
@@ -125,6 +125,16 @@ def run_unit(unit, rng, ctx):
     amps = np.asarray(M.amplitudes())
     final = np.linalg.norm(cart[-1], axis=1)
     ctx.check(close(amps.sum(), final.sum(), 1e-8), f'{what}: vibration amplitudes sum to {amps.sum()!r}, final distances sum to {final.sum()!r}', wit)
+    if unit['i'] % 5 == 3:
+        # a trajectory handed over as displacements from explicit reference positions, the first stored frame already
+        # displaced from them (non-zero first row); only this fresh object is asked, nothing switches its representation
+        dsp_b = np.diff(U, axis=0, prepend=U[:1])
+        dsp_b[0] = rng.uniform(-0.1, 0.1, size=(N, 3))
+        tb_ = gen.make_trajectory(m, sp, dsp_b, time_step=dt, metadata={'temperature': temp}, presentation='plain', coords_are_displacement=True, base_positions=(U[0] - np.floor(U[0])).copy())
+        amps_b = np.asarray(TrajectoryMetrics(tb_).amplitudes())
+        final_b = np.linalg.norm(np.cumsum(dsp_b, axis=0)[-1] @ m, axis=1)
+        ctx.check(close(amps_b.sum(), final_b.sum(), 1e-8), f'{what} [given as displacements from reference positions, first frame already displaced]: vibration amplitudes sum to {amps_b.sum()!r}, the final distances from the reference positions sum to {final_b.sum()!r}', wit)
+        ctx.count('displacement_built_runs_with_a_displaced_first_frame')
     if N > 1:
         sym0 = 'H' if names[0] in ('H', 'D', 'T') else names[0]
         a0 = np.asarray(TrajectoryMetrics(traj.filter(sym0)).amplitudes()) if sum(1 for n_ in names if ('H' if n_ in ('H', 'D', 'T') else n_) == sym0) == 1 else None
